@@ -1610,7 +1610,7 @@ class Data(BaseCartesianData):
         # so these shouldn't be updated from or copied over from the new data.
         for cid in self.components:
             cname = cid.label
-            if cid in self.coordinate_components:
+            if cid in self.coordinate_components or cid in self.derived_components:
                 continue
             if cname in old_labels & new_labels:
                 comp_old = self.get_component(cname)
@@ -1621,7 +1621,7 @@ class Data(BaseCartesianData):
         # and preserve the order of components as much as possible.
         for cid in data.components:
             cname = cid.label
-            if cid in data.coordinate_components:
+            if cid in data.coordinate_components or cid in data.derived_components:
                 continue
             if cname in new_labels - old_labels:
                 cid = data.find_component_id(cname)
